@@ -27,9 +27,9 @@ META["C10"] = dict(
 
 META["C13"] = dict(
     design_ref="DESIGN.md section 5, C13",
-    technique="Coq proof on the exact layer (telescoping sum and a contraction bound on the carried balance, by induction over ticks, nia) for every admissible run, i.e. every random outcome; bit-exact differential correspondence of api.WithJitter against the extracted binary64 model with the math/rand source mirrored; admissibility predicate evaluated on every run of the implementation",
-    text="Theorems C13_identity, C13_telescope_partial, C13_bounded_partial, C13_nonneg_partial, C13_checker_sound: for jitter below 100% and rates in [0,R], in every admissible run the difference between requested and emitted totals is the carried balance and stays within (jn*R+jd)/(jd-jn) at every prefix, outputs are non-negative, zero jitter is the identity. Admissibility (each value within jitter% + 1 of rate+balance; exact carry) of what the binary64 code emits is checked per run by jit_ok, not proved (float rounding).",
-    note="Trusted: Coq kernel (+ axioms carried by Flocq definitions for theorems mentioning the float model); math.Cos and math/rand are oracles taken from the run; extraction + driver; harness. Partial: link between float layer and exact layer is checked, not proved.",
+    technique="Coq proof on the exact layer (telescoping sum and a contraction bound on the carried balance, by induction over ticks, nia) for every admissible run, i.e. every random outcome; bit-exact differential correspondence of api.WithJitter against the extracted binary64 model with the math/rand source mirrored; proof that the binary64 step is an admissible step with exactly carried integer balance (four correctly rounded operations, round-half-away, clamp, truncation); admissibility predicate also evaluated on every run of the implementation",
+    text="Theorems C13_identity, C13_telescope, C13_bounded, C13_nonneg, C13_checker_sound (exact layer), C13_f64_admissible, C13_f64_total (binary64 code): for jitter below 100% and rates in [0,R], in every admissible run the difference between requested and emitted totals is the carried balance and stays within (jn*R+jd)/(jd-jn) at every prefix, outputs are non-negative, zero jitter is the identity. Admissibility (each value within jitter% + 1 of rate+balance; exact carry) of what the binary64 code emits is proved from Flocq's correct-rounding theorems (C13_f64_admissible: every finite cosine value in [-1,1], jitter a positive normal float below 100, magnitudes below 2^49) and additionally checked per run by jit_ok.",
+    note="Trusted: Coq kernel (+ axioms carried by Flocq definitions for theorems mentioning the float model); math.Cos and math/rand are oracles taken from the run; extraction + driver; harness. Outside the theorems: jitter >= 100 %, subnormal jitter percentages, magnitudes of 2^49 and more.",
 )
 
 META["C01"] = dict(
